@@ -407,7 +407,7 @@ func run(c *vf.Ctx) {
 		xsalsaCase(c, r, randBytes(r, 32), randBytes(r, i), i <= 48)
 	})
 	// 2. seeded random sizes
-	n := c.N(4000, 150000)
+	n := c.N(4000, 100000)
 	c.Parallel(n, workers, 100000, func(i int, r *rand.Rand) {
 		ptn, adn := sizes(r, 8192)
 		x := xcase{key: randBytes(r, 32), nonce: randBytes(r, 24), pt: randBytes(r, ptn), ad: randBytes(r, adn)}
